@@ -428,6 +428,15 @@ def decide(pid, pcfg, cfg, tier, seed, workdir, evidence):
         import kani_runner
         kani_res = kani_runner.run(pid, pcfg, tier, seed, workdir)
 
+    # ---- thorough tier: differential cross-check of the specification against the real code.
+    # The proofs rest on ASSUMED contracts of std (prelude.rs); running the real code next to an
+    # executable transcription of the specification over a structured input set guards those
+    # assumptions (bounded, never counted as proof).  A disagreement is shown with its input.
+    diff_res = None
+    if tier == "thorough" and not failures and os.environ.get("VERIF_NO_FINDER") != "1":
+        import finder
+        diff_res = finder.search(pid, timeout=600)
+
     # ---- evidence
     n_clause = len(my_clauses)
     n_fn = len(my_fns)
@@ -467,6 +476,10 @@ def decide(pid, pcfg, cfg, tier, seed, workdir, evidence):
         cov["kani"] = kani_res["evidence"]
     if stability is not None:
         cov["stability"] = stability
+    if diff_res is not None:
+        cov["differential_cross_check"] = {
+            "method": "finder/: real code (current tree) vs executable transcription of the specification; BOUNDED cross-check of "
+                      "the assumed std contracts, not part of the proof", "cases": diff_res.get("cases"), "mismatch": bool(diff_res.get("found"))}
     evidence["assumptions"] = cfg.get("global_assumptions", []) + pcfg.get("assumptions", [])
 
     # ---- verdict
@@ -494,6 +507,15 @@ def decide(pid, pcfg, cfg, tier, seed, workdir, evidence):
             log(f"VIOLATION property={pid} replay={path}")
         else:
             log(f"VIOLATION property={pid} replay={path} no-failing-input-found")
+        return 1
+    if diff_res and diff_res.get("found"):
+        path = write_replay(pid, [], {"failing_input": {"case": diff_res["case"], "expected": diff_res["expected"], "actual": diff_res["actual"],
+                                                        "how": "thorough-tier differential cross-check (finder/): the obligations verify, yet the real code disagrees "
+                                                               "with the executable transcription of the specification on this input - an assumed std contract "
+                                                               "or the transcription is wrong, or the code is; re-run with bin/check " + pid + " --replay <this file>"}})
+        evidence["violations"] = 1
+        log(f"failing input: {diff_res['case'][:200]} expected: {diff_res['expected'][:200]} actual: {diff_res['actual'][:200]}")
+        log(f"VIOLATION property={pid} replay={path}")
         return 1
     if kani_res and kani_res["violations"]:
         evidence["violations"] = len(kani_res["violations"])
